@@ -168,6 +168,12 @@ def dispatch(vm, m, callee, args):
         if n == 'as_deref' and isinstance(v, Ref):
             if rv.name == 'None': return ret(m, NONE())
             return ret(m, SOME(Ref(v.cell, v.path + (('f', 0),))))
+        if n == 'err':
+            return ret(m, SOME(rv.f[0]) if rv.name == 'Err' else NONE())
+        if n == 'and' and len(args) == 2:
+            return ret(m, args[1] if rv.name in ('Some', 'Ok') else rv)
+        if n == 'or' and len(args) == 2:
+            return ret(m, rv if rv.name in ('Some', 'Ok') else args[1])
         if n == 'ok':
             return ret(m, SOME(rv.f[0]) if rv.name == 'Ok' else NONE())
         if n == 'transpose':
